@@ -178,6 +178,12 @@ def cells(quick):
     cell("no_compress", macros=["CYTHON_COMPRESS_STRINGS=0"])
     cell("binding_false_noopt", directives={"binding": False, "always_allow_keywords": False, "optimize.use_switch": False,
                                              "optimize.unpack_method_calls": False, "auto_pickle": False})
+    if quick:
+        # budget: the table modules are compiled at -O0 in the quick tier (the optimisation level is varied for
+        # them in the thorough tier) and left out of the two cells whose macro cannot matter to them
+        for c in out:
+            c["table_cflags"] = ["-O0"]
+            c["tables"] = c["name"] not in ("O0", "no_compress")
     if not quick:
         cell("O3", cflags=["-O3"])
         cell("no_unicode_internals", macros=["CYTHON_USE_UNICODE_INTERNALS=0"])
@@ -233,7 +239,8 @@ def build_matrix(ctx, cs, sources, jobs=8):
             wd = os.path.join(ctx.workdir, c["name"])
             os.makedirs(wd, exist_ok=True)
             so = os.path.join(wd, name + cybuild.EXT)
-            rc, err = cybuild.cc(c_file, so, c["cflags"] + c.get("extra_cflags", []), c["macros"], c["cplus"], c.get("compiler"),
+            flags = c["cflags"] if name == "c39m" else c.get("table_cflags", c["cflags"])
+            rc, err = cybuild.cc(c_file, so, flags + c.get("extra_cflags", []), c["macros"], c["cplus"], c.get("compiler"),
                                  c.get("ldflags"))
             return c["name"], name, (None if rc == 0 else err[-1500:])
         jobs_cc = []
@@ -242,6 +249,9 @@ def build_matrix(ctx, cs, sources, jobs=8):
             for c in members:
                 c["trdir"] = wd
                 for name in sources:
+                    if name != "c39m" and not c.get("tables", True):
+                        status[c["name"]][name] = "not built in this cell"
+                        continue
                     c_file, err = cfiles[(wd, name)]
                     if err is not None:
                         status[c["name"]][name] = "cython: " + err
@@ -362,7 +372,7 @@ def run(ctx):
     cs = cells(quick)
     sources, ops_py, spec = corpus_spec(ctx, quick)
     sources = dict(sources, c39m=SRC)
-    status = build_matrix(ctx, cs, sources, jobs=8)
+    status = build_matrix(ctx, cs, sources, jobs=12)
     ctx.extra["t_build_s"] = round(time.time() - t0, 1)
     if any(status["base"].get(m) for m in sources):
         ctx.corr_break("build base cell", {m: e for m, e in status["base"].items() if e}, "does not build", "module builds")
@@ -370,7 +380,7 @@ def run(ctx):
     skipped = []
     for c in cs:
         for m in sources:
-            if status[c["name"]].get(m):
+            if status[c["name"]].get(m) and status[c["name"]][m] != "not built in this cell":
                 skipped.append("%s/%s: %s" % (c["name"], m, status[c["name"]][m].replace("\n", " ")[:160]))
 
     # ---- c39m: the differential program, one call per case
@@ -394,7 +404,7 @@ def run(ctx):
 
     with cf.ThreadPoolExecutor(max_workers=8) as ex:
         fm = {c["name"]: ex.submit(run_m, c) for c in cs if not status[c["name"]].get("c39m")}
-        ft = {c["name"]: ex.submit(run_t, c) for c in cs}
+        ft = {c["name"]: ex.submit(run_t, c) for c in cs if c.get("tables", True)}
         fpy = ex.submit(run_py)
         results = {k: f.result() for k, f in fm.items()}
         tres = {k: f.result() for k, f in ft.items()}
